@@ -315,7 +315,7 @@ class RadioDriver(CRTPDriver):
                     parsed_uri.netloc))
 
         channel = 2
-        if len(parsed_path) > 0:
+        if len(parsed_path) > 0 and parsed_path[0] != '':
             channel = int(parsed_path[0])
 
         datarate = Crazyradio.DR_2MPS
